@@ -9,7 +9,7 @@ VARIABLES ast, pc, queue, replies, acked
 vars == <<ast, pc, queue, replies, acked>>
 Clients == 1..2
 
-Init0 == [docs |-> [d \in Docs |-> [cap |-> "write", recs |-> {}, peers |-> <<>>]], open |-> <<>>, authors |-> {1}]
+Init0 == [docs |-> [d \in Docs |-> [cap |-> "write", recs |-> {}, peers |-> <<>>, pol |-> DefaultPolicy]], open |-> <<>>, authors |-> {1}]
 Init == /\ ast = Init0
         /\ pc \in [Clients -> Programs]       \* remaining program of each client
         /\ queue = <<>> /\ replies = <<>> /\ acked = [d \in Docs |-> {}]
